@@ -252,7 +252,23 @@ KEY_VARIANTS = [
     ("wide-int", [[1, 12]], {"1": "12"}),
     ("neg-text", [["a", "-1"]], {"a": "-1"}),
     ("spaced-text", [["b", "b c"]], {"b": "b c"}),
+    # text key spelled like the integer key 1 of the same alphabet
+    ("twin-text", [["a", "1"]], {"a": "1"}),
 ]
+
+
+def variant_specs(specs, kv):
+    """The specs that hold a replaced key, moved onto variant kv."""
+    _, pairs, _ = KEY_VARIANTS[kv]
+    return [remap_keys(s, pairs) for s in specs
+            if any(has_key(s, old) for old, _ in pairs)]
+
+
+def variant_segs(segs, kv):
+    """Path AST with key segments renamed for variant kv."""
+    textmap = KEY_VARIANTS[kv][2]
+    return [("key", textmap[s[1]]) if s[0] == "key" and s[1] in textmap
+            else tuple(s) for s in segs]
 
 
 def _keq(a, b):
